@@ -442,4 +442,125 @@ var propStall = stats.Prop(R, "long-stall", genStall, check)
 
 func TestLongStall(t *testing.T) { rapid.Check(t, propStall) }
 
+// Reconnect: the same application core serves a second source after the first has ended, and between the two
+// one consumer slot of its list is replaced in place (a sender that was re-created after a reconnect) and one
+// is switched off (nil).  The second source's messages go to the consumers that are in the list now.
+type ReconnectCase struct {
+	First   gen.Stream `json:"first_source"`
+	Second  gen.Stream `json:"second_source"`
+	Replace int        `json:"replaced_slot"`
+	Disable int        `json:"disabled_slot"` // -1: none
+}
+
+func checkReconnect(c ReconnectCase, o *stats.Obs) error {
+	in1, in2 := c.First.Bytes(), c.Second.Bytes()
+	ref1 := drive.Run(handler.New(drive.StartTime, slog.LevelDebug), in1, drive.Options{InCap: 4096, OutCap: 64})
+	ref2 := drive.Run(handler.New(drive.StartTime, slog.LevelDebug), in2, drive.Options{InCap: 4096, OutCap: 64})
+	if ref1.Panic != "" || !ref1.Closed || ref2.Panic != "" || !ref2.Closed || c.Replace < 0 || c.Replace > 2 || c.Disable > 2 || c.Disable == c.Replace {
+		o.Skip = true
+		return nil
+	}
+	type sink struct {
+		ch   chan handler.Message
+		got  []got
+		done chan struct{}
+	}
+	newSink := func() *sink {
+		s := &sink{ch: make(chan handler.Message, 1), done: make(chan struct{})}
+		go func() {
+			defer close(s.done)
+			for m := range s.ch {
+				s.got = append(s.got, got{m.MessageType, m.RawData})
+			}
+		}()
+		return s
+	}
+	sinks := []*sink{newSink(), newSink(), newSink()}
+	core := appcore.New(&jsonconfig.Config{}, []chan handler.Message{sinks[0].ch, sinks[1].ch, sinks[2].ch})
+	runSource := func(in []byte) bool {
+		ret := make(chan struct{})
+		go func() { core.HandleMessagesUntilEOF(drive.StartTime, bufio.NewReader(bytes.NewReader(in))); close(ret) }()
+		select {
+		case <-ret:
+			return true
+		case <-time.After(30 * time.Second):
+			return false
+		}
+	}
+	if !runSource(in1) {
+		o.Skip = true // C09's main leg
+		return nil
+	}
+	// the old consumer of the replaced slot goes away; a new one takes the slot
+	old := sinks[c.Replace]
+	close(old.ch)
+	<-old.done
+	fresh := newSink()
+	core.Channels[c.Replace] = fresh.ch
+	if c.Disable >= 0 {
+		core.Channels[c.Disable] = nil
+	}
+	if !runSource(in2) {
+		o.Key = "second-source-no-return"
+		return fmt.Errorf("the second source through the same application core (slot %d replaced, slot %d switched off) did not return within 30 s; goroutines:\n%s", c.Replace, c.Disable, leaked())
+	}
+	check := func(name string, s *sink, want []handler.Message, skip int) error {
+		close(s.ch)
+		<-s.done
+		if len(s.got) < skip {
+			return fmt.Errorf("%s received %d messages of the first source, want %d", name, len(s.got), skip)
+		}
+		g := s.got[skip:]
+		if len(g) != len(want) {
+			return fmt.Errorf("%s received %d messages of the second source, sequential framing yields %d", name, len(g), len(want))
+		}
+		for k := range g {
+			if g[k].t != want[k].MessageType || !bytes.Equal(g[k].raw, want[k].RawData) {
+				return fmt.Errorf("%s: message %d of the second source is type %d %x, want type %d %x", name, k, g[k].t, g[k].raw, want[k].MessageType, want[k].RawData)
+			}
+		}
+		return nil
+	}
+	if err := check(fmt.Sprintf("the new consumer in slot %d", c.Replace), fresh, ref2.Msgs, 0); err != nil {
+		o.Key = "replaced-consumer"
+		return err
+	}
+	for i, s := range sinks {
+		if i == c.Replace {
+			continue
+		}
+		want := ref2.Msgs
+		if i == c.Disable {
+			want = nil
+		}
+		if err := check(fmt.Sprintf("consumer %d (kept%s)", i, map[bool]string{true: ", switched off before the second source", false: ""}[i == c.Disable]), s, want, len(ref1.Msgs)); err != nil {
+			o.Key = "kept-consumer"
+			return err
+		}
+	}
+	o.NonTrivial = len(ref2.Msgs) > 0
+	o.Class("second-source-with-a-changed-consumer-list")
+	return nil
+}
+
+func genReconnect(t *rapid.T) ReconnectCase {
+	small := func() gen.Stream {
+		s := gen.AnyStream(t, gen.Adversarial, 6, 40)
+		if len(s.Bytes()) > 20000 {
+			s = gen.Stream{}
+		}
+		s.Segs = append(s.Segs, gen.Segment{Kind: "valid", Data: gen.ValidFrame(t, 40)})
+		return s
+	}
+	c := ReconnectCase{First: small(), Second: small(), Replace: rapid.IntRange(0, 2).Draw(t, "replace"), Disable: -1}
+	if rapid.Bool().Draw(t, "disableOne") {
+		c.Disable = (c.Replace + 1 + rapid.IntRange(0, 1).Draw(t, "which")) % 3
+	}
+	return c
+}
+
+var propReconnect = stats.Prop(R, "reconnect", genReconnect, checkReconnect)
+
+func TestReconnect(t *testing.T) { rapid.Check(t, propReconnect) }
+
 func TestReplay(t *testing.T) { R.Replay(t) }
